@@ -602,6 +602,7 @@ func (r *runner) monitor(op string, args []int64, before, after snap, res string
 		}
 		if hi != 0 || lo > math.MaxInt64 {
 			r.hit("C04:"+pkg+":size-counter-overflows", fmt.Sprintf("the item sizes sum to %d*2^64+%d > MaxInt64: Size()=%d, capacity %d, nothing evicted; %s", hi, lo, after.s, after.c, ctx))
+			r.regime = false // the counter is off from here on: everything later in this script is the same root cause
 			return
 		}
 	}
